@@ -44,6 +44,11 @@ impl ErrCode for E {
     }
 }
 
+/// payload of a value variant that holds the matched slice itself (no callback)
+pub fn slice_val<S: AsRef<[u8]> + ?Sized>(s: &S) -> u64 {
+    model::set::cb_value(s.as_ref())
+}
+
 /// Body shared by all generated callbacks: log the invocation (pattern, span, slice), bump `bump`
 /// whole chars (bytes in byte mode) of the remainder, return the decision index and the value.
 pub fn cb_common<'s, T>(lex: &mut Lexer<'s, T>, pat: u32, salt: u32, bump: u8, nopts: u8) -> (u8, u64)
